@@ -35,6 +35,7 @@ pub fn all() -> Vec<Prop> {
         Prop { id: "C20", gen: gen_c20, monitor: mon::c20, bound_quick: Some(2), bound_thorough: Some(3), max_execs_quick: 5_000, max_execs_thorough: 100_000, features: "f_metrics" },
         Prop { id: "C18", gen: gen_c18, monitor: mon::none, bound_quick: Some(2), bound_thorough: Some(2), max_execs_quick: 3_000, max_execs_thorough: 3_000, features: "" },
         Prop { id: "C12", gen: gen_c12, monitor: mon::c12, bound_quick: Some(2), bound_thorough: Some(3), max_execs_quick: 10_000, max_execs_thorough: 200_000, features: "f_deadlock,f_metrics,f_testutils,f_tracing" },
+        Prop { id: "C19", gen: gen_c19, monitor: mon::c19rt, bound_quick: Some(2), bound_thorough: Some(3), max_execs_quick: 10_000, max_execs_thorough: 200_000, features: "" },
         Prop { id: "C13", gen: gen_c13, monitor: mon::c13, bound_quick: Some(2), bound_thorough: Some(3), max_execs_quick: 20_000, max_execs_thorough: 400_000, features: "f_testutils" },
     ]
 }
@@ -2081,4 +2082,40 @@ fn gen_c12(thorough: bool) -> Vec<Scenario> {
         }
     }
     out
+}
+
+// ------------------------------------------------------------------ C19 (runtime half): on_tell_result
+
+fn gen_c19(thorough: bool) -> Vec<Scenario> {
+    let mut out: Vec<Scenario> = gen_c01(thorough).into_iter().enumerate().filter(|(i, _)| i % 3 == 0).map(|(_, s)| s).collect();
+    for s in out.iter_mut() {
+        s.name = s.name.replace("c01-", "c19-");
+    }
+    let mut n = out.len();
+    // Result-returning handlers with a hand written on_tell_result, every call path, Ok and Err values,
+    // including asks whose caller gives up while the handler is still running
+    for slow in [false, true] {
+        for cap in [1usize, 4] {
+            let mut ids = Ids(0);
+            let body = if slow { vec![Step::Sleep(20)] } else { vec![] };
+            let mr = |ids: &mut Ids, err: bool, body: &Vec<Step>| {
+                let mut m = MsgSpec::m1(ids.next()).kind(MsgKind::MR).steps(body.clone());
+                if err {
+                    m = m.out(Outcome::Err(7));
+                }
+                m
+            };
+            let c0 = Program::new(
+                vec![(0, 0)],
+                vec![send(SendKind::Tell, 0, mr(&mut ids, false, &body)), send(SendKind::Tell, 0, mr(&mut ids, true, &body)), send(SendKind::Ask, 0, mr(&mut ids, true, &body))],
+            );
+            let c1 = Program::new(
+                vec![(0, 0)],
+                vec![send(SendKind::AskTO(10), 0, mr(&mut ids, true, &body)), send(SendKind::TellTO(10), 0, mr(&mut ids, true, &body)), send(SendKind::AskTO(10), 0, MsgSpec::m1(ids.next()).steps(body.clone()))],
+            );
+            n += 1;
+            out.push(scn(format!("c19-{n}-mr-slow{slow}-cap{cap}"), vec![ActorSpec::plain(cap)], vec![c0, c1], &[]));
+        }
+    }
+    with_fused(out)
 }
